@@ -21,6 +21,7 @@ using namespace IMATH_NAMESPACE;
 #include <string.h>
 #include <stdlib.h>
 #include <stdint.h>
+#include <pthread.h>
 #define HAVE_CXX 0
 #endif
 
@@ -57,9 +58,37 @@ static uint64_t block_hash (uint32_t b, int cxx, int canon)
     return h;
 }
 
+#if !HAVE_CXX
+// plain C: the same 16-way split of the block range, with pthreads
+struct blk_job { uint32_t lo, hi, t, nt; int cxx, canon; uint64_t* out; };
+static void* blk_worker (void* p)
+{
+    struct blk_job* j = (struct blk_job*) p;
+    for (uint32_t b = j->lo + j->t; b < j->hi; b += j->nt) j->out[b - j->lo] = block_hash (b, j->cxx, j->canon);
+    return 0;
+}
+#endif
+
 int main (int argc, char** argv)
 {
     if (argc < 2) return 2;
+    if (!strcmp (argv[1], "config"))
+    {
+        // which #if branch of half.h this translation unit was compiled with
+#if defined(__F16C__)
+        printf ("branch=f16c");
+#elif defined(IMATH_HALF_USE_LOOKUP_TABLE) && !defined(IMATH_HALF_NO_LOOKUP_TABLE)
+        printf ("branch=table");
+#else
+        printf ("branch=shift");
+#endif
+#ifdef __cplusplus
+        printf (" lang=c++%ld\n", (long) __cplusplus);
+#else
+        printf (" lang=c%ld\n", (long) __STDC_VERSION__);
+#endif
+        return 0;
+    }
     if (!strcmp (argv[1], "f2h_blocks"))
     {
         uint32_t lo = (uint32_t) atol (argv[2]), hi = (uint32_t) atol (argv[3]);
@@ -72,7 +101,16 @@ int main (int argc, char** argv)
             th.emplace_back ([=] { for (uint32_t b = lo + t; b < hi; b += nt) out[b - lo] = block_hash (b, cxx, canon); });
         for (auto& t : th) t.join ();
 #else
-        for (uint32_t b = lo; b < hi; ++b) out[b - lo] = block_hash (b, cxx, canon);
+        enum { NT = 16 };
+        pthread_t th[NT];
+        struct blk_job jobs[NT];
+        for (unsigned t = 0; t < NT; ++t)
+        {
+            struct blk_job j = { lo, hi, t, NT, cxx, canon, out };
+            jobs[t] = j;
+            if (pthread_create (&th[t], 0, blk_worker, &jobs[t])) return 3;
+        }
+        for (unsigned t = 0; t < NT; ++t) pthread_join (th[t], 0);
 #endif
         for (uint32_t b = lo; b < hi; ++b) printf ("%llx\n", (unsigned long long) out[b - lo]);
         return 0;
